@@ -7,7 +7,7 @@
    A signature is <<upstream overhang, downstream overhang>>.  The ASSUMEs are the standards' own
    consistency (types chain, composites are concatenations); the trace clause compares the signature
    declared by each kit class with the standard.                                                  *)
-EXTENDS Sequences, FiniteSets, TLC
+EXTENDS Integers, Sequences, FiniteSets, TLC
 
 YTK == [ YTKPart1 |-> <<"CCCT", "AACG">>, YTKPart2 |-> <<"AACG", "TATG">>, YTKPart3 |-> <<"TATG", "ATCC">>,
          YTKPart3a |-> <<"TATG", "TTCT">>, YTKPart3b |-> <<"TTCT", "ATCC">>, YTKPart4 |-> <<"ATCC", "GCTG">>,
@@ -43,4 +43,15 @@ Position == [ MoCloPro |-> "Pro", MoClo5U |-> "U5", MoClo5Uf |-> "U5f", MoCloNTa
               Plant3U |-> "U3", PlantTer |-> "Ter" ]
 Standard(name) == IF name \in DOMAIN YTK THEN YTK[name]
                   ELSE IF name \in DOMAIN Position THEN CS[Position[name]] ELSE << >>
+
+\* ---- kits whose published tables are not written down here (CIDAR, EcoFlex): internal consistency of what they declare ---
+\* the part types of a transcription unit chain (the downstream overhang of one is the upstream overhang of the next; N is
+\* a free letter), and a composite type spans exactly the types it replaces
+UnitOf == [ cidar   |-> <<"CIDARPromoter", "CIDARRibosomeBindingSite", "CIDARCodingSequence", "CIDARTerminator">>,
+            ecoflex |-> <<"EcoFlexPromoter", "EcoFlexRBS", "EcoFlexCodingSequence", "EcoFlexTerminator">> ]
+CompositeOf == [ EcoFlexPromoterRBS |-> <<"EcoFlexPromoter", "EcoFlexRBS">>,
+                 EcoFlexRBS         |-> <<"EcoFlexTagLinker", "EcoFlexTag">> ]      \* (an RBS position may be filled by linker + tag)
+SameOvh(a, b) == Len(a) = Len(b) /\ \A i \in 1..Len(a) : a[i] = b[i] \/ a[i] = "N" \/ b[i] = "N"
+UnitChains(sigs) == \A i \in 1..(Len(sigs) - 1) : SameOvh(sigs[i][2], sigs[i + 1][1])
+Spans(c, a, b) == SameOvh(c[1], a[1]) /\ SameOvh(c[2], b[2]) /\ SameOvh(a[2], b[1])
 =============================================================================
